@@ -22,6 +22,14 @@ MAX_HELPER_STMTS = 40
 # ---------------------------------------------------------------------- canonical spellings
 
 class _Canon(ast.NodeTransformer):
+    def visit_FunctionDef(self, node):
+        self._fn_stack = getattr(self, '_fn_stack', []) + [node.name]
+        try:
+            self.generic_visit(node)
+        finally:
+            self._fn_stack = self._fn_stack[:-1]
+        return node
+
     def visit_Call(self, node):
         self.generic_visit(node)
         # dict(<generator of 2-tuples>) -> {k: v for ...}
@@ -52,6 +60,18 @@ class _Canon(ast.NodeTransformer):
 
     def visit_Assign(self, node):
         self.generic_visit(node)
+        # `X = {K: _helper(..) for T in S}`  ->  _dc = {}; for T in S: _dc[K] = _helper(..); X = _dc   (same order of evaluation; only
+        # where the value is produced by a private module-level helper: the loop form lets the helper be inlined)
+        dc = node.value
+        if len(node.targets) == 1 and isinstance(dc, ast.DictComp) and len(dc.generators) == 1 and not dc.generators[0].ifs and \
+                not dc.generators[0].is_async and isinstance(dc.value, ast.Call) and isinstance(dc.value.func, ast.Name) and \
+                dc.value.func.id[:1] == '_' and dc.value.func.id not in getattr(self, '_fn_stack', []):
+            g = dc.generators[0]
+            store = ast.copy_location(ast.Assign(targets=[ast.Subscript(value=ast.Name(id='_dc', ctx=ast.Load()), slice=dc.key, ctx=ast.Store())],
+                                                 value=dc.value), node)
+            return [ast.copy_location(ast.Assign(targets=[ast.Name(id='_dc', ctx=ast.Store())], value=ast.Dict(keys=[], values=[])), node),
+                    ast.copy_location(ast.For(target=g.target, iter=g.iter, body=[store], orelse=[], type_comment=None), node),
+                    ast.copy_location(ast.Assign(targets=node.targets, value=ast.Name(id='_dc', ctx=ast.Load())), node)]
         # `t = A if c else B`  ->  if c: t = A / else: t = B     (single plain target; the value is evaluated before the target)
         if len(node.targets) == 1 and isinstance(node.value, ast.IfExp) and isinstance(node.targets[0], (ast.Name, ast.Attribute)) \
                 and (isinstance(node.targets[0], ast.Name) or isinstance(node.targets[0].value, ast.Name)):
@@ -64,8 +84,43 @@ class _Canon(ast.NodeTransformer):
                                                    op=node.value.op, value=node.value.right), node)
         return node
 
+    def visit_While(self, node):
+        self.generic_visit(node)
+        # `while (x := E) is not None: BODY`  ->  while True: x = E; if x is None: break; BODY   (no else clause: leaving through the
+        # test and leaving through break are then the same)
+        t = node.test
+        ne = t if isinstance(t, ast.NamedExpr) else (t.left if isinstance(t, ast.Compare) and isinstance(t.left, ast.NamedExpr) else None)
+        if ne is not None and isinstance(ne.target, ast.Name) and not node.orelse:
+            asg = ast.copy_location(ast.Assign(targets=[ast.Name(id=ne.target.id, ctx=ast.Store())], value=ne.value), node)
+            nm = ast.copy_location(ast.Name(id=ne.target.id, ctx=ast.Load()), ne)
+            if isinstance(t, ast.NamedExpr):
+                cond = ast.UnaryOp(op=ast.Not(), operand=nm)
+            else:
+                t.left = nm
+                cond = ast.UnaryOp(op=ast.Not(), operand=t)
+                if len(t.ops) == 1 and isinstance(t.ops[0], ast.IsNot):
+                    cond = ast.Compare(left=nm, ops=[ast.Is()], comparators=t.comparators)
+                elif len(t.ops) == 1 and isinstance(t.ops[0], ast.Is):
+                    cond = ast.Compare(left=nm, ops=[ast.IsNot()], comparators=t.comparators)
+            brk = ast.copy_location(ast.If(test=cond, body=[ast.copy_location(ast.Break(), node)], orelse=[]), node)
+            node.test = ast.copy_location(ast.Constant(value=True), node)
+            node.body = [asg, brk] + node.body
+            ast.fix_missing_locations(node)
+        return node
+
     def visit_If(self, node):
         self.generic_visit(node)
+        # `if (x := E): ...` / `if (x := E) is not None: ...`  ->  x = E; if x ...   (an `if` evaluates its test exactly once)
+        t = node.test
+        ne = t if isinstance(t, ast.NamedExpr) else (t.left if isinstance(t, ast.Compare) and isinstance(t.left, ast.NamedExpr) else None)
+        if ne is not None and isinstance(ne.target, ast.Name):
+            asg = ast.copy_location(ast.Assign(targets=[ast.Name(id=ne.target.id, ctx=ast.Store())], value=ne.value), node)
+            nm = ast.copy_location(ast.Name(id=ne.target.id, ctx=ast.Load()), ne)
+            if isinstance(t, ast.NamedExpr):
+                node.test = nm
+            else:
+                t.left = nm
+            return [asg, node]
         if node.orelse and isinstance(node.test, ast.UnaryOp) and isinstance(node.test.op, ast.Not) \
                 and not (len(node.orelse) == 1 and isinstance(node.orelse[0], ast.If)):
             node.test, node.body, node.orelse = node.test.operand, node.orelse, node.body
@@ -108,6 +163,31 @@ class _Canon(ast.NodeTransformer):
 
     def visit_Return(self, node):
         self.generic_visit(node)
+        dc = node.value
+        if isinstance(dc, ast.DictComp) and len(dc.generators) == 1 and not dc.generators[0].ifs and not dc.generators[0].is_async and \
+                isinstance(dc.value, ast.Call) and isinstance(dc.value.func, ast.Name) and dc.value.func.id[:1] == '_' and \
+                dc.value.func.id not in getattr(self, '_fn_stack', []):
+            # `return {K: _helper(..) for T in S}`  ->  _dc = {}; for T in S: _dc[K] = _helper(..); return _dc
+            g = dc.generators[0]
+            store = ast.copy_location(ast.Assign(targets=[ast.Subscript(value=ast.Name(id='_dc', ctx=ast.Load()), slice=dc.key, ctx=ast.Store())],
+                                                 value=dc.value), node)
+            return [ast.copy_location(ast.Assign(targets=[ast.Name(id='_dc', ctx=ast.Store())], value=ast.Dict(keys=[], values=[])), node),
+                    ast.copy_location(ast.For(target=g.target, iter=g.iter, body=[store], orelse=[], type_comment=None), node),
+                    ast.copy_location(ast.Return(value=ast.Name(id='_dc', ctx=ast.Load())), node)]
+        # `return [E for x in S if C]`  ->  _ret = []; for x in S: if C: _ret.append(E); return _ret   (same order of evaluation)
+        if isinstance(node.value, ast.ListComp) and len(node.value.generators) == 1 and not node.value.generators[0].is_async and \
+                isinstance(node.value.elt, ast.Call) and isinstance(node.value.elt.func, ast.Name) and \
+                node.value.elt.func.id not in getattr(self, '_fn_stack', []) and node.value.elt.func.id[:1] == '_':
+            # (only where the element is produced by a private module-level helper: the loop form lets the helper be inlined)
+            lc = node.value
+            g = lc.generators[0]
+            body = [ast.copy_location(ast.Expr(value=ast.Call(func=ast.Attribute(value=ast.Name(id='_ret', ctx=ast.Load()), attr='append',
+                                                                                 ctx=ast.Load()), args=[lc.elt], keywords=[])), node)]
+            for c in reversed(g.ifs):
+                body = [ast.copy_location(ast.If(test=c, body=body, orelse=[]), node)]
+            return [ast.copy_location(ast.Assign(targets=[ast.Name(id='_ret', ctx=ast.Store())], value=ast.List(elts=[], ctx=ast.Load())), node),
+                    ast.copy_location(ast.For(target=g.target, iter=g.iter, body=body, orelse=[], type_comment=None), node),
+                    ast.copy_location(ast.Return(value=ast.Name(id='_ret', ctx=ast.Load())), node)]
         # `return A if c else B`  ->  if c: return A / else: return B
         if isinstance(node.value, ast.IfExp):
             e = node.value
@@ -145,6 +225,9 @@ class _Rename(ast.NodeTransformer):
         return node
 
     def visit_arg(self, node):
+        # a parameter of a lambda / nested function inside the helper: its uses are renamed with the helper's locals, so is it
+        if isinstance(self.mapping.get(node.arg), str):
+            node.arg = self.mapping[node.arg]
         return node
 
     def visit_ExceptHandler(self, node):
@@ -370,7 +453,45 @@ class Inliner:
                 pre.append(ast.Assign(targets=[ast.Name(id=p + suffix, ctx=ast.Store())], value=clone(arg)))
         if is_gen:
             if any(isinstance(n, ast.Return) for st in body for n in ast.walk(st)):
-                return None
+                # `return` directly inside the loop that ends the generator is `break` (nothing follows the loop)
+                last = body[-1] if body else None
+
+                def only_in_last_loop():
+                    if not isinstance(last, (ast.While, ast.For)) or last.orelse:
+                        return False
+                    for st_ in body[:-1]:
+                        if any(isinstance(n, ast.Return) for n in ast.walk(st_)):
+                            return False
+                    ok_ = [True]
+
+                    def walk(n, depth_loops):
+                        for c_ in ast.iter_child_nodes(n):
+                            if isinstance(c_, (ast.FunctionDef, ast.AsyncFunctionDef, ast.Lambda)):
+                                continue
+                            if isinstance(c_, ast.Return):
+                                if c_.value is not None or depth_loops > 0:
+                                    ok_[0] = False
+                            elif isinstance(c_, (ast.While, ast.For)):
+                                walk(c_, depth_loops + 1)
+                            elif isinstance(c_, ast.Try) and c_.finalbody:
+                                ok_[0] = ok_[0] and not any(isinstance(x, ast.Return) for x in ast.walk(c_))
+                            else:
+                                walk(c_, depth_loops)
+                    walk(last, 0)
+                    return ok_[0]
+                if not only_in_last_loop():
+                    return None
+
+                class _R2B(ast.NodeTransformer):
+                    def visit_FunctionDef(self, n):
+                        return n
+
+                    def visit_Lambda(self, n):
+                        return n
+
+                    def visit_Return(self, n):
+                        return ast.copy_location(ast.Break(), n)
+                body[-1] = _R2B().visit(last)
             new_body = body
         else:
             tgt = target or ('_ret' + suffix)
@@ -789,6 +910,7 @@ def normalized(ctx, fi, depth=2, do_canon=True, keep=()):
     node = _inline_expression_helpers(ctx, inl, node, fi, orig_calls)
     node = fold_module_constants(ctx, fi, node)
     node = fold_flags(ctx, fi, node)
+    node = propagate_path_aliases(node)
     if do_canon:
         node = canon(node)
     ast.fix_missing_locations(node)
@@ -1099,3 +1221,183 @@ def file_idioms(ctx, nf):
         set_parents(node)
         node._parent = par
     return nf
+
+
+def call_idioms(ctx, nf):
+    """Two spellings of a call, brought to the plain one (applied to a normalised copy, in place):
+
+    * `opts = {'a': x, 'b': y}` ... `f(p, **opts)`  ->  `f(p, a=x, b=y)` when opts is bound once to a dict display with literal text keys
+      and is only ever used as `**opts` (so nothing can have changed it in between);
+    * `put = d.setdefault` ... `put(k, v)`  ->  `d.setdefault(k, v)` when put is bound once to an attribute of a plain name and is only
+      ever called.
+    """
+    node = nf.node
+    binds, uses = {}, {}
+    for n in own_nodes(node):
+        if isinstance(n, ast.Assign) and len(n.targets) == 1 and isinstance(n.targets[0], ast.Name):
+            binds.setdefault(n.targets[0].id, []).append(n)
+        if isinstance(n, ast.Name) and isinstance(n.ctx, ast.Load):
+            uses.setdefault(n.id, []).append(n)
+    changed = False
+    for name, bs in binds.items():
+        if len(bs) != 1:
+            continue
+        v = bs[0].value
+        us = uses.get(name, [])
+        if isinstance(v, ast.Dict) and v.keys and all(isinstance(k, ast.Constant) and isinstance(k.value, str) for k in v.keys):
+            sites = []
+            ok = bool(us)
+            for u_ in us:
+                par = getattr(u_, '_parent', None)
+                if isinstance(par, ast.keyword) and par.arg is None and isinstance(getattr(par, '_parent', None), ast.Call):
+                    sites.append((par._parent, par))
+                else:
+                    ok = False
+            if ok:
+                for call, kw in sites:
+                    i = call.keywords.index(kw)
+                    call.keywords[i:i + 1] = [ast.keyword(arg=k.value, value=clone(val)) for k, val in zip(v.keys, v.values)]
+                changed = True
+        elif isinstance(v, ast.Attribute) and isinstance(v.value, ast.Name) and len(binds.get(v.value.id, [])) <= 1:
+            ok = bool(us) and all(isinstance(getattr(u_, '_parent', None), ast.Call) and u_._parent.func is u_ for u_ in us)
+            if ok:
+                for u_ in us:
+                    u_._parent.func = ast.copy_location(clone(v), u_)
+                changed = True
+    if changed:
+        par = getattr(node, '_parent', None)
+        ast.fix_missing_locations(node)
+        set_parents(node)
+        node._parent = par
+    return nf
+
+
+def propagate_path_aliases(node):
+    """`options = self.options` ... `options.setdefault(..)`: a plain local bound exactly once to an attribute path (no call, no
+    subscript) names the same object as the path for as long as neither is rebound.  Where the function never assigns to that path
+    (nor to a prefix of it) and never rebinds the local, every use of the local is replaced by the path and the binding dropped."""
+    if not isinstance(node, (ast.FunctionDef, ast.AsyncFunctionDef)):
+        return node
+    from .deps import pseudo
+    params = {a.arg for a in node.args.posonlyargs + node.args.args + node.args.kwonlyargs}
+    if node.args.vararg:
+        params.add(node.args.vararg.arg)
+    if node.args.kwarg:
+        params.add(node.args.kwarg.arg)
+    binds, other_stores, path_stores, scoped = {}, set(), set(), set()
+    for n in ast.walk(node):
+        if isinstance(n, ast.Assign) and len(n.targets) == 1 and isinstance(n.targets[0], ast.Name):
+            binds.setdefault(n.targets[0].id, []).append(n)
+        elif isinstance(n, ast.Name) and isinstance(n.ctx, (ast.Store, ast.Del)):
+            par = getattr(n, '_parent', None)
+            if not (isinstance(par, ast.Assign) and len(par.targets) == 1 and par.targets[0] is n):
+                other_stores.add(n.id)
+        if isinstance(n, (ast.Attribute, ast.Subscript)) and isinstance(n.ctx, (ast.Store, ast.Del)):
+            p = pseudo(n) if isinstance(n, ast.Attribute) else None
+            if p:
+                path_stores.add(p)
+        if isinstance(n, (ast.Nonlocal, ast.Global)):
+            scoped |= set(n.names)
+    # parent links may be missing on a clone: recompute the "single target" test without them
+    multi = set()
+    for n in ast.walk(node):
+        if isinstance(n, (ast.For, ast.AsyncFor, ast.comprehension)):
+            multi |= {x.id for x in ast.walk(n.target) if isinstance(x, ast.Name)}
+        elif isinstance(n, (ast.With, ast.AsyncWith)):
+            for it in n.items:
+                if it.optional_vars is not None:
+                    multi |= {x.id for x in ast.walk(it.optional_vars) if isinstance(x, ast.Name)}
+        elif isinstance(n, ast.AugAssign) and isinstance(n.target, ast.Name):
+            multi.add(n.target.id)
+        elif isinstance(n, ast.Assign) and not (len(n.targets) == 1 and isinstance(n.targets[0], ast.Name)):
+            for t in n.targets:
+                multi |= {x.id for x in ast.walk(t) if isinstance(x, ast.Name) and isinstance(x.ctx, ast.Store)}
+        elif isinstance(n, ast.NamedExpr) and isinstance(n.target, ast.Name):
+            multi.add(n.target.id)
+        elif isinstance(n, ast.ExceptHandler) and n.name:
+            multi.add(n.name)
+        elif isinstance(n, (ast.FunctionDef, ast.AsyncFunctionDef, ast.ClassDef)) and n is not node:
+            multi.add(n.name)
+    repl = {}
+    # `self.matcher = matcher = E`: one object under two names from the start; where the local is never stored again and the path is
+    # assigned only here, the local is replaced by the path and the statement becomes `self.matcher = E`
+    chains = {}
+    for n in ast.walk(node):
+        if isinstance(n, ast.Assign) and len(n.targets) == 2:
+            names_ = [t for t in n.targets if isinstance(t, ast.Name)]
+            paths_ = [t for t in n.targets if isinstance(t, ast.Attribute) and pseudo(t)]
+            if len(names_) == 1 and len(paths_) == 1:
+                chains[names_[0].id] = (n, paths_[0])
+    stores_count = {}
+    for n in ast.walk(node):
+        if isinstance(n, ast.Name) and isinstance(n.ctx, (ast.Store, ast.Del)):
+            stores_count[n.id] = stores_count.get(n.id, 0) + 1
+    path_store_count = {}
+    for n in ast.walk(node):
+        if isinstance(n, ast.Attribute) and isinstance(n.ctx, (ast.Store, ast.Del)) and pseudo(n):
+            path_store_count[pseudo(n)] = path_store_count.get(pseudo(n), 0) + 1
+    chain_repl = {}
+    for nm, (asg, pth) in chains.items():
+        p = pseudo(pth)
+        if stores_count.get(nm, 0) == 1 and nm not in params and nm not in scoped and path_store_count.get(p, 0) == 1 and \
+                not any(q != p and p.startswith(q + '.') for q in path_store_count) and p.split('.')[0] == 'self':
+            chain_repl[nm] = (asg, pth)
+    if chain_repl:
+        class C(ast.NodeTransformer):
+            def visit_Assign(self, n):
+                self.generic_visit(n)
+                for nm, (a, pth) in chain_repl.items():
+                    if n is a:
+                        n.targets = [t for t in n.targets if not (isinstance(t, ast.Name) and t.id == nm)]
+                return n
+
+            def visit_Name(self, n):
+                if isinstance(n.ctx, ast.Load) and n.id in chain_repl:
+                    pth = chain_repl[n.id][1]
+                    new = clone(pth)
+                    for x in ast.walk(new):
+                        if hasattr(x, 'ctx'):
+                            x.ctx = ast.Load()
+                    return ast.copy_location(new, n)
+                return n
+        node = C().visit(node)
+        ast.fix_missing_locations(node)
+    for name, bs in binds.items():
+        if len(bs) != 1 or name in params or name in multi or name in scoped:
+            continue
+        v = bs[0].value
+        p = pseudo(v) if isinstance(v, ast.Attribute) else None
+        if not p or '.' not in p:
+            continue
+        root = p.split('.')[0]
+        if root in multi or (root in binds and root not in params and len(binds[root]) > 1) or root in scoped:
+            continue
+        if root in binds and root != 'self':
+            continue        # the root itself is a local that is assigned in this function: keep it simple
+        if any(ps == p or p.startswith(ps + '.') for ps in path_stores):
+            continue
+        repl[name] = (bs[0], v)
+    if not repl:
+        return node
+
+    class R(ast.NodeTransformer):
+        def visit_Assign(self, n):
+            for nm, (a, v) in repl.items():
+                if n is a:
+                    return None
+            self.generic_visit(n)
+            return n
+
+        def visit_Name(self, n):
+            if isinstance(n.ctx, ast.Load) and n.id in repl:
+                return ast.copy_location(clone(repl[n.id][1]), n)
+            return n
+    node = R().visit(node)
+    for n in ast.walk(node):        # a block emptied by the removal
+        for fld in ('body', 'orelse', 'finalbody'):
+            b = getattr(n, fld, None)
+            if isinstance(b, list) and not b and fld == 'body' and isinstance(n, (ast.If, ast.For, ast.While, ast.With, ast.Try,
+                                                                                ast.FunctionDef, ast.ExceptHandler)):
+                b.append(ast.Pass())
+    ast.fix_missing_locations(node)
+    return node
